@@ -41,7 +41,7 @@ def gen_history(rng, kind=None):
     world = gen_world(rng, ngraphs=(1, 2), neps=(6, 18))
     labs = [n[1] for g in world["graphs"].values() for n in g["nodes"] if n[1]] or ["hello"]
     texts = [" ".join(rng.sample(labs, min(len(labs), rng.randint(1, 2)))) for _ in range(2)]
-    base = {"t2": {"owner_scope": rng.choice(["agent", "agent", "any"]), "sim_threshold": rng.choice([-1.0, 0.0]), "k_retrieval": rng.choice([2, 4, 8]),
+    base = {"t2": {"owner_scope": rng.choice(["agent", "agent", "any", "Agent", "AGENT"]),  # the scope is matched case-insensitively "sim_threshold": rng.choice([-1.0, 0.0]), "k_retrieval": rng.choice([2, 4, 8]),
                    "ranking": {"alpha_sim": 0.75, "beta_recency": 0.2, "gamma_importance": 0.05}, "exact_recent_days": 30},
             "t4": {"cache_bust_mode": rng.choice(["on-apply", "none"]), "snapshot_every_n_turns": 1000}}
     t4_off = rng.random() < 0.4 and kind not in ("apply", "kill-switch-turn")
@@ -201,7 +201,7 @@ def apply_mutation(m, envs, world2, cfgs, slice_holder):
         elif kind == "cfg:sim_threshold":
             cfg["t2"]["sim_threshold"] = 0.15 if cfg["t2"]["sim_threshold"] < 0.1 else -1.0
         elif kind == "cfg:owner_scope":
-            cfg["t2"]["owner_scope"] = {"agent": "world", "world": "any", "any": "agent"}[cfg["t2"]["owner_scope"]]
+            cfg["t2"]["owner_scope"] = {"agent": "world", "world": "any", "any": "agent"}[str(cfg["t2"]["owner_scope"]).lower()]
         elif kind == "cfg:residual_cap":
             cfg["t2"]["residual_cap_per_turn"] = 0 if cfg["t2"].get("residual_cap_per_turn", 32) else 32
         elif kind == "cfg:tiers":
@@ -406,7 +406,7 @@ def check_history(case, sess: Session):
                 elif (c["t2"] is None) != (u["t2"] is None):
                     d2 = {"C": c["t2"] is not None, "U": u["t2"] is not None}
                 # owner leak check on what C used
-                if c["t2"] is not None and str(envs["C"][cur].cfg["t2"].get("owner_scope")) == "agent":
+                if c["t2"] is not None and str(envs["C"][cur].cfg["t2"].get("owner_scope")).lower() == "agent":
                     owners = {}
                     for e in envs["C"][cur].state["mem_index"]._eps:  # an id may occur several times (revised memories)
                         owners.setdefault(str(e.get("id")), set()).add(e.get("owner"))
